@@ -9,8 +9,8 @@
    of the real code do not depend on the numbering. *)
 From Coq Require Import ZArith List Bool.
 From Model Require Import PyBase Graph PeriodicTable Valence Kekule Thiele.
-From Gen Require Import Elements KekuleCls ThieleCls.
-From Proofs Require Import KekuleProofs KekuleExt KekuleValence KekuleThiele KekuleSound KekuleLink KekulePrep KekuleGenTie KekuleTrace.
+From Gen Require Import Elements KekuleCls ThieleCls ThielePost KekuleComp.
+From Proofs Require Import KekuleProofs KekuleExt KekuleValence KekuleThiele KekuleSound KekuleLink KekulePrep KekuleGenTie KekuleTrace ThielePostTie ThieleFuel KekuleCompTie ThieleFrame.
 Import ListNotations.
 Open Scope Z_scope.
 
@@ -407,3 +407,117 @@ Theorem C05_thiele_model_t_preserves : forall g sssr ords rings2 fok o,
   thiele_model_t g sssr ords rings2 fok = Ok o -> core_of (o_mol o) = core_of g /\ graph_of (o_mol o) = graph_of g.
 Proof. exact thiele_model_t_preserves. Qed.
 Print Assumptions C05_thiele_model_t_preserves.
+
+(* ---- ROUND 4, tie by translation: the WHOLE of thiele() is now built from decisions regenerated from the source.
+   tools/gen_thielepost.py compares the statements after the ring loop with a skeleton (fail closed on any difference outside
+   the decisions, e.g. the arguments of the freak_rules query) and translates every decision inside them into Gen.ThielePost:
+   the out-of-ring double bond test, the hydrogen-moving search (seed tuple and filter, path cutting test, stop test,
+   alternation of the bond order, extension filter, the hydrogen counts written), the pruning test, the ring count formula and
+   its zero test, the bond orders written for four-membered / aromatic / rule-aromatised rings.  thiele_model_src /
+   thiele_model_t_src (Proofs.ThielePostTie) are the models written with generated decisions only (ring loop: ring_step_src);
+   they are equal to the hand-written models the correspondence and the other theorems use, for all inputs. *)
+Theorem C05_gen_thiele_model_eq : forall g sssr rings2 freak_ok,
+  thiele_model_src g sssr rings2 freak_ok = thiele_model g sssr rings2 freak_ok.
+Proof. exact gen_thiele_model_eq. Qed.
+Print Assumptions C05_gen_thiele_model_eq.
+
+Theorem C05_gen_thiele_model_t_eq : forall g sssr ords rings2 freak_ok,
+  thiele_model_t_src g sssr ords rings2 freak_ok = thiele_model_t g sssr ords rings2 freak_ok.
+Proof. exact gen_thiele_model_t_eq. Qed.
+Print Assumptions C05_gen_thiele_model_t_eq.
+
+(* non-vacuity: the generated decisions take both values, the generated constants are the ones the relation thiele_rel expects
+   (aromatic = 4, reset = 1, the moved hydrogen 1 -> 0) *)
+Theorem C05_gen_thiele_post_values :
+  gen_tp_exo false 2 = true /\ gen_tp_exo true 2 = false /\ gen_tp_exo false 1 = false /\
+  gen_tp_new_order 2 = 1 /\ gen_tp_new_order 1 = 2 /\ gen_tp_found 1 = true /\ gen_tp_found 2 = false /\
+  gen_tp_extend false false 2 2 = true /\ gen_tp_extend true false 2 2 = false /\ gen_tp_extend false true 2 2 = false /\ gen_tp_extend false false 1 2 = false /\
+  gen_tp_leaf 1 = true /\ gen_tp_leaf 2 = false /\ gen_tp_nsssr 12 6 1 = 1 /\ gen_tp_nsssr 22 10 1 = 2 /\ gen_tp_stop 0 = true /\ gen_tp_stop 1 = false /\
+  [gen_tp_order_tetra; gen_tp_order_ring; gen_tp_order_freak; gen_tp_h_acceptor; gen_tp_h_donor; gen_tp_depth0; gen_tp_order0; gen_tp_depth_step] = [1; 4; 4; 1; 0; 0; 2; 1].
+Proof. exact gen_thiele_post_values. Qed.
+Print Assumptions C05_gen_thiele_post_values.
+
+(* ---- ROUND 4, from observation to theorem: the pruning loop of thiele() (`while True: n = next(n for n, ms in rings.items()
+   if len(ms) == 1) ...`) is the fuelled function Model.Thiele.prune, called with fuel S (number of skeleton atoms).  Its
+   out-of-fuel value Err OtherError is EXCLUDED FOR ALL INPUTS: for any skeleton with distinct keys the number of non-empty
+   entries (< fuel) strictly decreases with every iteration (prune_fuel: the deleted key has a non-empty set, sets only
+   shrink, keys the defaultdict re-creates are empty); the skeleton thiele() builds has distinct keys whatever the molecule
+   and the SSSR are, so neither model of thiele() can return the out-of-fuel value. *)
+Theorem C05_prune_fuel : forall fuel pyr d, NoDup (keys d) -> (ne_count d < fuel)%nat -> prune fuel pyr d <> Err OtherError.
+Proof. exact prune_fuel. Qed.
+Print Assumptions C05_prune_fuel.
+
+Theorem C05_thiele_model_no_fuel_error : forall g sssr rings2 fok, thiele_model g sssr rings2 fok <> Err OtherError.
+Proof. exact thiele_model_no_fuel_error. Qed.
+Print Assumptions C05_thiele_model_no_fuel_error.
+
+Theorem C05_thiele_model_t_no_fuel_error : forall g sssr ords rings2 fok, thiele_model_t g sssr ords rings2 fok <> Err OtherError.
+Proof. exact thiele_model_t_no_fuel_error. Qed.
+Print Assumptions C05_thiele_model_t_no_fuel_error.
+
+(* non-vacuity: the loop really prunes (benzene ring with a two-atom tail) within the fuel *)
+Theorem C05_prune_runs :
+  prune 9 [] [(1, [2; 6]); (2, [1; 3]); (3, [2; 4]); (4, [3; 5]); (5, [4; 6]); (6, [5; 1; 7]); (7, [6; 8]); (8, [7])] =
+  Ok [(1, [2; 6]); (2, [1; 3]); (3, [2; 4]); (4, [3; 5]); (5, [4; 6]); (6, [5; 1])].
+Proof. exact prune_runs. Qed.
+Print Assumptions C05_prune_runs.
+
+(* ---- ROUND 4, tie by translation of the backtracking search: tools/gen_kekulecomp.py compares the WHOLE of _kekule_component
+   with a skeleton (fail closed on any difference outside the decisions: the stack / path manipulations of the growth step,
+   the tuples appended, the path cut after a yield `path = path[:k]` - a fresh list, so that yielded paths are never mutated)
+   and translates the decisions into Gen.KekuleComp: start atom selection, the initial stack items, size, the complete-path
+   test, the three pyridine-over-pyrrole buffer tests, the classification of the neighbours, the `if loop:` chain with the
+   items it inserts, the first test of the growth step.  kekule_component_src (Proofs.KekuleCompTie: kstep_src, kloop_src,
+   find_start_src) is the search written with these generated decisions; it equals the model the soundness theorem
+   kekule_component_sound and the correspondence are about, for all arguments, buffer sizes, cuts and fuels. *)
+Theorem C05_gen_kstep_eq : forall rings db pyr start size s, kstep_src rings db pyr start size s = kstep rings db pyr start size s.
+Proof. exact gen_kstep_eq. Qed.
+Print Assumptions C05_gen_kstep_eq.
+
+Theorem C05_gen_kekule_component_eq : forall rings db db_start pyr buffer_size maxy fuel,
+  kekule_component_src rings db db_start pyr buffer_size maxy fuel = kekule_component rings db db_start pyr buffer_size maxy fuel.
+Proof. exact gen_kekule_component_eq. Qed.
+Print Assumptions C05_gen_kekule_component_eq.
+
+Theorem C05_gen_kekule_comp_values :
+  gen_kc_start_strict 2 false = true /\ gen_kc_start_strict 2 true = false /\ gen_kc_start_strict 3 false = false /\ gen_kc_start_loose 2 = true /\
+  gen_kc_start_loose 3 = false /\ gen_kc_size 12 = 6 /\ gen_kc_full 6 6 = true /\ gen_kc_full 5 6 = false /\
+  gen_kc_use_buffer true 7 = true /\ gen_kc_use_buffer true 0 = false /\ gen_kc_use_buffer false 7 = false /\
+  gen_kc_pair_elt 2 true = true /\ gen_kc_pair_elt 1 true = false /\ gen_kc_pair_elt 2 false = false /\ gen_kc_pair_test 2 = true /\ gen_kc_pair_test 1 = false /\
+  gen_kc_buffer_full 7 7 = true /\ gen_kc_buffer_full 6 7 = false /\ gen_kc_has_loop 0 = false /\ gen_kc_has_loop 5 = true /\
+  gen_kc_side_path false false false = false /\ gen_kc_side_path true false false = true /\ gen_kc_side_path false true false = true /\
+  gen_kc_side_path false false true = true /\ gen_kc_grow_out 2 false = true /\ gen_kc_grow_out 1 true = true /\ gen_kc_grow_out 1 false = false /\
+  [gen_kc_init_bond_db; gen_kc_init_cut_db; gen_kc_init_bond_strict; gen_kc_init_cut_strict; gen_kc_init_bond_loose; gen_kc_init_cut_loose;
+   gen_kc_init_bond_full; gen_kc_init_cut_full; gen_kc_loop_single1; gen_kc_loop_single2; gen_kc_loop_double; gen_kc_grow_bond] = [1; 0; 1; 0; 1; 0; 2; 0; 1; 1; 2; 2].
+Proof. exact gen_kekule_comp_values. Qed.
+Print Assumptions C05_gen_kekule_comp_values.
+
+(* ---- ROUND 4, locality of thiele(fix_tautomers=False) as a theorem about the model (the search checks it on the real code with
+   composite molecules: saturated carbons, conversions commute with the split into fragments): whatever the SSSR, the second
+   ring search and the answers of the freak_rules queries are, an atom that lies in none of the rings the second ring search
+   returns and in none of the candidate five-rings whose query MATCHED keeps its whole row of bonds (neighbours, orders,
+   stereo marks): the answer for one candidate ring never reaches another ring. *)
+Theorem C05_thiele_model_frame : forall g sssr rings2 fok o n,
+  thiele_model g sssr rings2 fok = Ok o ->
+  (forall r, In r rings2 -> ~ In n r) ->
+  (forall r, In (r, true) (combine (o_freaks o) fok) -> ~ In n r) ->
+  nbrs (o_mol o) n = nbrs g n.
+Proof. exact thiele_model_frame. Qed.
+Print Assumptions C05_thiele_model_frame.
+
+(* non-vacuity: two candidate rings, only the first query matches: atom 9 (second ring) keeps its row, atom 1 (first ring) does not *)
+Theorem C05_frame_example :
+  let g3 := fold_left (fun (g : mol) (rb : list Z * bool) => if snd rb then set_bonds g (fst rb) 4 else g)
+                      (combine [[1; 2; 3; 4; 5]; [6; 7; 8; 9; 10]] [true; false]) fr_g in
+  nbrs g3 9 = nbrs fr_g 9 /\ nbrs g3 1 <> nbrs fr_g 1.
+Proof. exact frame_example. Qed.
+Print Assumptions C05_frame_example.
+
+(* the soundness theorem of the search, stated about the REGENERATED search (the function written with the decisions the translator
+   reads from kekule.py on every run): every form it yields on well-formed arguments is form_sound *)
+Theorem C05_kekule_component_src_sound : forall rings db db_start pyr bs maxy fuel ys r c,
+  rings_wf2 rings db pyr = true -> (db <> [] -> In db_start db) ->
+  kekule_component_src rings db db_start pyr bs maxy fuel = Ok (ys, r, c) ->
+  forallb (form_sound rings db pyr) ys = true.
+Proof. exact kekule_component_src_sound. Qed.
+Print Assumptions C05_kekule_component_src_sound.
